@@ -346,7 +346,7 @@ pub fn uf(k: u8, l: u8, r: u8) -> u8 { l.wrapping_mul(3).wrapping_add(r ^ k.wrap
 '''
 
 
-def c09_prog(name, op, base_l_ref, base_r_ref, rhs_other, req, generic=False, base_assign=False, self_in_where=None):
+def c09_prog(name, op, base_l_ref, base_r_ref, rhs_other, req, generic=False, base_assign=False, self_in_where=None, bound_in_where=False):
     """req: subset of {'bin','assign'}; base_assign: the user impl is `impl OpAssign<R> for A`, req must be {'bin'}"""
     k = BINOPS.index(op)
     f = FN[op]
@@ -354,10 +354,14 @@ def c09_prog(name, op, base_l_ref, base_r_ref, rhs_other, req, generic=False, ba
     LI = "G<u8>" if generic else "A"
     RT = "B" if rhs_other else LT
     RI = "B" if rhs_other else LI
-    ig = "<T: Copy>" if generic else ""
+    # bound_in_where: the bound the user body (and the generated clones) depend on is written in the where-clause only, so a
+    # generated impl that loses the where-clause no longer type-checks
+    ig = ("<T>" if bound_in_where else "<T: Copy>") if generic else ""
     if self_in_where is None:
         self_in_where = not base_l_ref      # `Self` in the where-clause of a `for &T` impl is a recorded finding (see known_findings.jsonl)
     wh = ((" where Self: Sized" if self_in_where else " where G<T>: Sized") if generic else "")
+    if generic and bound_in_where:
+        wh += ", T: Copy"
     tfield = ", t: self.t" if generic else ""
     lty = ("&" if base_l_ref else "") + LT
     rty = ("&" if base_r_ref else "") + RT
@@ -782,6 +786,10 @@ pub fn gby_partial_eq<T: ?Sized>(_a: &T, _b: &T) -> bool { true }
 pub fn gby_hash<T: ?Sized, H: core::hash::Hasher>(_a: &T, _h: &mut H) {}
 pub trait Marker {}
 impl<T: ?Sized> Marker for T {}
+pub trait Marker2<W: ?Sized> {}
+impl<T: ?Sized, W: ?Sized> Marker2<W> for T {}
+/// never implemented: a bound `T: Marker3<Self>` on the type holds in an impl only if the impl header repeats it about the type itself
+pub trait Marker3<W: ?Sized> {}
 /// operator-capable generic field type with a lifetime
 #[derive(Clone, Copy, Debug, Default, PartialEq, Eq, PartialOrd, Ord, Hash)]
 pub struct Lt<'a>(pub u8, pub core::marker::PhantomData<&'a ()>);
@@ -886,12 +894,13 @@ def c20_prog(name, rng, names=None):
         gens.append(LT_)
     tw = T in words
     if tw:
-        gens.append(T + rng.choice(["", ": crate::support::Marker", ": Sized"]) + ("" if True else ""))
+        # inline bounds, including ones that mention `Self` (legal on a type definition; every generated impl header must still name the type there)
+        gens.append(T + rng.choice(["", ": crate::support::Marker", ": Sized", ": crate::support::Marker2<Self>", ": crate::support::Marker3<Self>", ": crate::support::Marker3<Option<Self>> + Sized"]))
     if use_n and N_ in words:
         gens.append("const %s: usize" % N_)
     g = ("<%s>" % ", ".join(gens)) if gens else ""
     where = ""
-    if gens and rng.random() < 0.4 and not ops_struct:
+    if gens and rng.random() < 0.4:
         where = " where Self: Sized" + (", %s: crate::support::Marker" % T if tw else "")
     elif tw and rng.random() < 0.3:
         where = " where %s: crate::support::Marker" % T
